@@ -46,9 +46,12 @@ impl RequestHandler<Completion> for CompletionHandler {
                         // Are we autocompleting a dot?
                         if suffix.starts_with('.') {
                             // Go back until the first non-identifer or dot character to determine the scope prefix
+                            // (which may be longer than a byte)
                             let scope_at = line
-                                .rfind(|c: char| !c.is_alphanumeric() && c != '_' && c != '.')
-                                .map(|pos| pos + 1)
+                                .char_indices()
+                                .rev()
+                                .find(|(_, c)| !c.is_alphanumeric() && *c != '_' && *c != '.')
+                                .map(|(pos, c)| pos + c.len_utf8())
                                 .unwrap_or_default();
                             let (_, scope) = line.split_at(scope_at);
                             nested_scope = Some(IdentifierPath::from(scope));
